@@ -3,6 +3,25 @@ pkg = test package under harness/, level = evidence level, jobs[tier] = list of
 {part, shards, checks (rapid cases per shard), journal, timeout, scale}."""
 
 CHECKS = {
+    'C11': dict(pkg='c11', level='exploration',
+        technique='round-trip oracle (library Send -> byte stream -> chunk-controlled reader -> Recv) over rapid-generated record sequences and fragmentations, with every cut set enumerated for short streams',
+        level_text='Records are sent pipelined with the library Send of each framing and read back through a reader whose read boundaries are generated (all cut sets for short streams, all one/two-cut fragmentations of header streams, 1-byte reads, bounded reads, data+EOF); results must equal the sent records byte for byte, then io.EOF three times. Exploration, exhaustive only for the stated finite sub-spaces.',
+        level_note='Trusts the chunk-controlled reader and the comparison; records are generated legal for the framing (RawJSON: self-delimiting values), split-byte records are expected to be refused with nothing written.',
+        jobs=dict(
+        quick=[
+            dict(part='allcuts', shards=8, timeout=300),
+            dict(part='pairs', shards=2),
+            dict(part='huge', shards=3),
+            dict(part='random', shards=3, checks=4000),
+            dict(part='randombig', shards=3, checks=150),
+        ],
+        thorough=[
+            dict(part='allcuts', shards=12, timeout=3000),
+            dict(part='pairs', shards=2),
+            dict(part='huge', shards=6, timeout=1800),
+            dict(part='random', shards=8, checks=40000, timeout=1800),
+            dict(part='randombig', shards=8, checks=2500, timeout=3000),
+        ])),
     'C12': dict(pkg='c12', level='exploration',
         technique='exhaustive enumeration of short token streams + rapid-generated mutations of valid streams, compared with independent reference decoders (differential oracle) and universal no-fabrication/termination invariants; crashes caught via a case journal',
         level_text='Every stream of up to N tokens over framing-specific alphabets (incl. hostile lengths) is enumerated completely and each Recv result compared with a reference decoder written from the package documentation; mutated and truncated valid streams are searched beyond that bound. Exploration, exhaustive only for the stated finite sub-spaces.',
